@@ -1,4 +1,8 @@
 import Driver.Proto
+import GoframeModel.Spec.Select
+import GoframeModel.Spec.Join
+import GoframeModel.Spec.SortDedup
+import GoframeModel.Spec.Invalid
 /-
   `seq` engine: a history of public operations over a pool of live frames. After every step the
   harness dumps every live frame; the driver
@@ -67,6 +71,7 @@ structure SeqVerdict where
   okSteps : Nat := 0
   errSteps : Nat := 0
   inplaceOk : Nat := 0
+  rel : List (String × String) := []
 
 def firstFail (cur new : String) : String := if cur == "ok" then new else cur
 
@@ -81,6 +86,45 @@ def sortRel (ω : Oracle) (src out : Frame) (by_ : List Str) (asc : Bool) : Bool
    let kc (r : List Cell) := keyIdx.map (fun i => r.getD i .nil)
    let ks := rowsO.map kc
    (List.range (ks.length - 1)).all (fun i => !lessCells ω asc (ks.getD (i + 1) []) (ks.getD i [])))
+
+/-- the per-operation specification (C03, C06, C07, C08, C15, C19) evaluated on the implementation's
+own input and output: returns the property key and whether the observed outcome satisfies it -/
+def relSpec (ω : Oracle) (pre : Pool) (op : Op) (status : String) (post : Pool) : Option (String × Bool) :=
+  let res := post.getLast?.getD []
+  let derivedOk (exp : Frame) : Bool := status == "ok" && post.length == pre.length + 1 && frameApprox exp res
+  let mutOk (t : Nat) (exp : Frame) : Bool := status == "ok" && frameApprox exp (post.getD t [])
+  let optD (e : Option Frame) : Bool := match e with
+    | some x => derivedOk x
+    | none => status == "err"
+  let optM (t : Nat) (e : Option Frame) : Bool := match e with
+    | some x => mutOk t x
+    | none => status == "err"
+  match op with
+  | .head t n => pre[t]?.map (fun f => ("c08", derivedOk (Spec.headSpec f n)))
+  | .tail t n => pre[t]?.map (fun f => ("c08", derivedOk (Spec.tailSpec f n)))
+  | .rowSlice t a b => pre[t]?.map (fun f => ("c08", derivedOk (Spec.rowSliceSpec f a b)))
+  | .filter t bits => pre[t]?.map (fun f => ("c08", derivedOk (Spec.filterSpec f (bitsPred bits))))
+  | .iloc t rs cs => pre[t]?.map (fun f => ("c08", optD (Spec.ilocSpec f rs cs)))
+  | .loc t ls cs => pre[t]?.map (fun f => ("c08", optD (Spec.locSpec f ls cs)))
+  | .multiSelect t ks => pre[t]?.map (fun f => ("c08", optD (Spec.multiSelectSpec f ks)))
+  | .dropRow t i => pre[t]?.map (fun f => ("c08", optM t (Spec.dropRowSpec f i)))
+  | .dropColumn t k => pre[t]?.map (fun f => ("c08", optM t (Spec.dropColumnSpec f k)))
+  | .shift t q => pre[t]?.map (fun f => ("c19", derivedOk (Spec.shiftSpec f q)))
+  | .fillNa t v => pre[t]?.map (fun f => ("c15", mutOk t (Spec.fillNaSpec f v)))
+  | .dropNa t => pre[t]?.map (fun f => ("c15", mutOk t (Spec.dropNaSpec f)))
+  | .astype t k ty => pre[t]?.map (fun f => ("c15", optM t (Spec.astypeSpec ω f k ty)))
+  | .addDatetimeIndex t k l => pre[t]?.map (fun f => ("c15", optM t (Spec.addDatetimeIndexSpec ω f k l)))
+  | .join kind t u key => match pre[t]?, pre[u]? with
+    | some l, some r => some ("c03", optD (Spec.joinSpec kind l r key))
+    | _, _ => none
+  | .sortValues t by_ asc => pre[t]?.map (fun f =>
+      ("c06", if by_.any (fun k => !f.has k) then status == "err"
+              else status == "ok" && post.length == pre.length + 1 && Spec.sortSpec ω f res by_ asc))
+  | .dedup t sub keep ip => pre[t]?.map (fun f =>
+      ("c07", match Spec.dedupSpec f sub keep with
+        | none => status == "err"
+        | some e => if ip then mutOk t e else derivedOk e))
+  | _ => none
 
 partial def seqSteps (ω : Oracle) (n : Nat) (idx : Nat) (model impl : Pool) (v : SeqVerdict) : P SeqVerdict := do
   if idx ≥ n then return v
@@ -99,6 +143,8 @@ partial def seqSteps (ω : Oracle) (n : Nat) (idx : Nat) (model impl : Pool) (v 
     v := { v with errSteps := v.errSteps + 1 }
     if impl'.length != impl.length || dump.any (fun d => !d.same) then
       v := { v with c20 := firstFail v.c20 s!"{tag}:frame-changed-on-error" }
+  if Spec.invalidRequest ω impl op && status == "ok" then
+    v := { v with c20 := firstFail v.c20 s!"{tag}:invalid-request-accepted" }
   -- C02: only the target of an in-place operation may change; nothing else, and never on a derive
   let tgt := op.target
   let mutIdx (i : Nat) : Bool := op.inPlace && i == tgt
@@ -118,6 +164,12 @@ partial def seqSteps (ω : Oracle) (n : Nat) (idx : Nat) (model impl : Pool) (v 
           v := { v with c01 := firstFail v.c01 s!"{tag}:not-rectangular" }
         else if d.frame ≠ [] && d.nrows != (d.frame.nrows : Int) then
           v := { v with c01 := firstFail v.c01 s!"{tag}:nrows-mismatch" }
+  -- the operation's own specification, on the implementation's input and output
+  match relSpec ω impl op status impl' with
+  | some (key, good) =>
+    if !good && !(v.rel.any (fun kv => kv.1 == key)) then
+      v := { v with rel := (key, s!"{tag}:spec") :: v.rel }
+  | none => pure ()
   -- correspondence with the model
   let m := step ω model op
   let mstatus := match m with
@@ -155,6 +207,7 @@ def checkSeq : P String := do
   let n ← pNat
   let v ← seqSteps ω n 0 pool pool {}
   let nontriv := v.okSteps ≥ 3 && v.inplaceOk ≥ 1
-  pure s!"c01={v.c01} c02={v.c02} c20={v.c20} corr={v.corr} nontrivial={if nontriv then 1 else 0} ok={v.okSteps} err={v.errSteps}"
+  let relS := String.intercalate " " (v.rel.map (fun kv => s!"{kv.1}={kv.2}"))
+  pure s!"c01={v.c01} c02={v.c02} c20={v.c20} {relS} corr={v.corr} nontrivial={if nontriv then 1 else 0} ok={v.okSteps} err={v.errSteps}"
 
 end Goframe.Driver
